@@ -903,6 +903,19 @@ Definition classification : list (string * cls) := [
   ("utils.rs|is_ident|recursion|d6cebafe", Unreachable r_not_self_call);
   (* utils.rs:1093 get_ident  --  p . get_ident ( ) *)
   ("utils.rs|get_ident|recursion|00516eaf", Unreachable r_not_self_call);
+  (* utils.rs:1265-1356 is_type_parameter_used_in_type (as of /repo ad7ada5): every self-call -- also the ones
+     inside the local closure used_in_path -- is on a strict sub-term of the syn::Type argument (qself, generic /
+     parenthesized path arguments, AssocType bindings, elem of Reference/Array/Slice/Group/Paren/Ptr, tuple
+     elements, fn inputs/output, path arguments of a trait-object bound), so it terminates by structural descent
+     with call depth <= nesting depth of the type.  No model of the depth/stack relation: the sites stay ProbeOnly
+     (deep-nesting probes, 200-2000 levels, through derive(Error) with a type parameter innermost). *)
+  ("utils.rs|is_type_parameter_used_in_type|recursion|afd4741b", ProbeOnly);
+  ("utils.rs|is_type_parameter_used_in_type|recursion|e0bc3a96#1", ProbeOnly);
+  ("utils.rs|is_type_parameter_used_in_type|recursion|e0bc3a96#2", ProbeOnly);
+  ("utils.rs|is_type_parameter_used_in_type|recursion|e0bc3a96#3", ProbeOnly);
+  ("utils.rs|is_type_parameter_used_in_type|recursion|e0bc3a96#4", ProbeOnly);
+  ("utils.rs|is_type_parameter_used_in_type|recursion|8e167e74", ProbeOnly);
+  ("utils.rs|is_type_parameter_used_in_type|recursion|6ef8c11d", ProbeOnly);
   (* utils.rs:1272 is_type_parameter_used_in_type  --  is_type_parameter_used_in_type ( type_parameters , & qself . ty ) *)
   ("utils.rs|is_type_parameter_used_in_type|recursion|b615f074", ProbeOnly);
   (* utils.rs:1289 is_type_parameter_used_in_type  --  is_type_parameter_used_in_type ( type_parameters , ty ) *)
